@@ -200,8 +200,16 @@ def run_ansatz(case, ctx):
         theta = ansatzlib.rand_params(pr, nvp, pr.choice(["uniform", "big", "uniform", "some_zero"]))
         ans.build_circuit(list(theta))
         if case["rep"] >= 1:
-            # also through the update path
-            theta = ansatzlib.rand_params(pr, nvp, pr.choice(["uniform", "big"]))
+            # also through the update path; half of the time with the zero pattern of the previous vector kept (frozen / masked
+            # amplitudes), which is the situation in which the circuit is updated in place rather than rebuilt
+            new = ansatzlib.rand_params(pr, nvp, pr.choice(["uniform", "big"]))
+            if pr.random() < 0.6:
+                if all(x != 0.0 for x in theta):
+                    ans_mask = [pr.random() < 0.4 for _ in theta]
+                    theta = [0.0 if m else x for m, x in zip(ans_mask, theta)]
+                    ans.build_circuit(list(theta))
+                new = [0.0 if x == 0.0 else y for x, y in zip(theta, new)]
+            theta = new
             ans.update_var_params(list(theta))
     circ = ans.circuit
     n = circ.width
